@@ -258,6 +258,49 @@ impl Engine for SeqEngine {
         let mut knobs = BTreeMap::new();
         knobs.insert("sweep_every".to_string(), *c.pick(&[0i64, 1, 3, 7]));
         knobs.insert("differential".to_string(), p.differential as i64);
+        // "huge" family (own tape, 1 run in 120): values at and around the documented maximum of
+        // 4 MiB (1025 blocks) and, in memory, a key of the maximal 100 KiB, on a device large
+        // enough to hold two of them; everything else about the run stays as generated
+        let mut h = Tape::fresh(mix(seed, 0x4B16));
+        let (store, keys, ops) = if matches!(property, "C01" | "C05" | "C10" | "C13") && !p.differential && h.chance(1, 120) {
+            let mut keys = keys;
+            let mut ops = ops;
+            ops.truncate(12);
+            let store = StoreCfg { data_blocks: 2300, max_memory: None, ..store };
+            let big_key = if !persistent {
+                keys.push(vec![b'K'; crate::model::MAX_KEY - h.below(2) as usize]);
+                keys.len() - 1
+            } else {
+                0
+            };
+            let lens = [crate::model::MAX_VALUE, crate::model::MAX_VALUE - 1, crate::model::MAX_VALUE - 4096 + 17, 1 << 20, 65536 * 4 + 3];
+            let k0 = h.below(keys.len() as u32) as usize;
+            let mut tail = vec![
+                Op::Insert { key: k0, val: Val { len: *h.pick(&lens), kind: ValKind::Plain }, ts: Ts::Auto, ttl: 0, bytes: h.chance(1, 2) },
+                Op::Get { key: k0, bytes: h.chance(1, 2) },
+                Op::Insert { key: big_key, val: Val { len: 100 + h.below(5000) as usize, kind: ValKind::Plain }, ts: Ts::Auto, ttl: 0, bytes: false },
+                Op::Flush,
+                Op::Get { key: k0, bytes: false },
+                Op::Reopen,
+                Op::Get { key: k0, bytes: true },
+                Op::Get { key: big_key, bytes: false },
+                Op::Insert { key: k0, val: Val { len: *h.pick(&lens), kind: ValKind::Plain }, ts: Ts::Auto, ttl: 0, bytes: h.chance(1, 2) },
+                Op::Flush,
+                Op::Settle,
+                Op::Insert { key: k0, val: Val { len: 10, kind: ValKind::Plain }, ts: Ts::Auto, ttl: 0, bytes: false },
+                Op::Range { start: Bound::Empty, end: Bound::Max, limit: 100 },
+                Op::Flush,
+                Op::Reopen,
+                Op::BadInsert { which: h.below(6) as u8 },
+                Op::Delete { key: k0, ts: Ts::Auto },
+                Op::Flush,
+            ];
+            ops.append(&mut tail);
+            knobs.insert("huge".to_string(), 1);
+            (store, keys, ops)
+        } else {
+            (store, keys, ops)
+        };
         Scenario {
             engine: "seq".into(),
             property: property.into(),
@@ -434,6 +477,11 @@ fn run_once(
                     eprintln!("op #{i} wall {now0}..{now1}: {} -> {} obs={obs:?}", call.brief(), res.brief());
                 }
                 report.ops += 1;
+                match (&call, &res) {
+                    (Call::Insert { value, .. }, Res::Bool(_)) if value.len() >= (1 << 20) => report.count("huge_values_accepted", 1),
+                    (Call::Get { .. }, Res::Bytes(v)) if v.len() >= (1 << 20) => report.count("huge_values_read", 1),
+                    _ => {}
+                }
                 report.count(&format!("op.{}", call.name()), 1);
                 if let Res::Err(e) = &res {
                     report.count(&format!("err.{e:?}").chars().take(40).collect::<String>(), 1);
